@@ -315,8 +315,10 @@ def forwarders(ctx, rule):
                 # parameter names of the root
                 pn = {i: rb.names.get(i, "_%d" % i) for i in range(1, rb.arg_count + 1)}
                 key = "record-new-args:%s" % root
+                # add_record(store_id, record_id, title, rating): positions, not names, identify the parameters
+                pos = {"record_id": 2, "title": 3, "rating": 4}
                 def is_param(o, name):
-                    return o[0] == "param" and o[1] == root and pn.get(o[2]) == name
+                    return o[0] == "param" and o[1] == root and o[2] == pos[name]
                 store_of_id = os_[3][0] == "field" and os_[3][2] == "lang" and os_[3][1][0] == "reg" and \
                     os_[3][1][2] == ("param", root, 1)
                 ok = is_param(os_[0], "record_id") and is_param(os_[1], "title") and is_param(os_[2], "rating") and store_of_id
@@ -350,7 +352,7 @@ def forwarders(ctx, rule):
                     so = model.origin(b, pl[1])
                     vo = model.origin(b, sy.rvalue(st["rv"]))
                     key = "limit-assign:%s" % root
-                    if so[0] == "reg" and so[2] == ("param", root, 1) and vo[0] == "param" and vo[1] == root and pn.get(vo[2]) == "limit":
+                    if so[0] == "reg" and so[2] == ("param", root, 1) and vo[0] == "param" and vo[1] == root and vo[2] == 2:
                         ctx.ok(rule, key, where(b, bi, st), "%s stores its `limit` parameter in the addressed store" % root, nontrivial=True)
                     else:
                         ctx.fail(rule, key, where(b, bi, st), "%s assigns %s to the limit of %s" % (root, vo, so),
